@@ -1205,7 +1205,20 @@ func (m *Machine) callFunction(fn *ssa.Function, args []Value, caps []Value, pos
 			if exact := m.exactNumString(fn, args[0]); exact != nil {
 				return exact
 			}
-			return m.opaqueFmt(name, args[0])
+			str := m.opaqueFmt(name, args[0])
+			// the rendering of a decimal parses back to the same decimal (Dec.String / NewDecFromStr round trip)
+			if isNamed(fn.Signature.Recv().Type(), sdkTypes, "Dec") {
+				if sv, ok := args[0].(*StructVal); ok && len(sv.f) == 1 {
+					if p, ok := m.peekPtr(sv.f[0]); ok && p.cell != nil {
+						if bv, ok := getPath(p.cell.elems[p.idx], p.path).(*BigVal); ok {
+							m.addPC(m.in.UF("validdec", SBool, str))
+							m.addPC(m.in.Eq(m.in.UF("decof", SInt, str), bv.t))
+							m.addPC(m.in.Gt(m.in.StrLen(str), m.in.I64(0)))
+						}
+					}
+				}
+			}
+			return str
 		}
 	}
 	if fn.Pkg != nil && fn.Name() == "init" && fn.Signature.Recv() == nil && fn.Parent() == nil {
